@@ -29,8 +29,8 @@ Apply(e) ==
     [] e.op = "encstress" -> [st EXCEPT !.cand = [k \in DOMAIN st.cand |-> {e.v}],
                                         !.file = [k \in DOMAIN st.cand |-> UnkFile], !.orig = [k \in DOMAIN st.cand |-> UnkFile]]
     [] e.op \in {"del", "api_del"} -> DoDel(st, e.k, e.ok = 1)
-    [] e.op = "tamper"  -> IF e.ok = 1 THEN DoTamper(st, e.k, e.how, e.k2) ELSE st
-    [] e.op = "tamper_all" -> DoTamperAll(st)
+    [] e.op = "tamper"  -> IF e.ok = 1 THEN DoTamperKey(st, e.k, e.how, e.k2, ToSetOf(e.cleank)) ELSE st
+    [] e.op = "tamper_all" -> DoTamperAll(st, ToSetOf(e.cleank), e.rtclean = 1)
     [] e.op = "rt_store" -> IF e.ok = 1 THEN DoRtStore(st, e.v) ELSE st
     \* a response the transport fetched is what it has stored now
     [] e.op = "rt_get" -> IF e.ok = 1 /\ e.st >= 1 THEN DoRtStore(st, e.rv) ELSE st
